@@ -503,7 +503,8 @@ class PathProxy:
         return OsProxy._meta(self.w, "getsize", p, os.path.getsize)
 
     def getmtime(self, p):
-        return OsProxy._meta(self.w, "getmtime", p, os.path.getmtime)
+        OsProxy._meta(self.w, "getmtime", p, os.path.getmtime)
+        return self.w.t0
 
     def expanduser(self, p):
         if p == "~":
@@ -522,6 +523,22 @@ class PathProxy:
 
     def __getattr__(self, name):
         return getattr(os.path, name)
+
+
+class SimStat:
+    """a stat result whose timestamps come from the simulated clock (the
+    backing files carry the host's real times, which must never be seen)"""
+
+    def __init__(self, world, st):
+        self._st = st
+        self.st_mtime = self.st_ctime = self.st_atime = world.t0
+        self.st_mtime_ns = self.st_ctime_ns = self.st_atime_ns = \
+            int(world.t0) * 10**9
+        self.st_ino = 0
+        self.st_dev = 0
+
+    def __getattr__(self, name):
+        return getattr(self._st, name)
 
 
 class OsProxy:
@@ -551,10 +568,12 @@ class OsProxy:
             w.in_proxy -= 1
 
     def lstat(self, p):
-        return self._meta(self.w, "lstat", p, os.lstat, site="fs.stat")
+        return SimStat(self.w, self._meta(self.w, "lstat", p, os.lstat,
+                                          site="fs.stat"))
 
     def stat(self, p):
-        return self._meta(self.w, "stat", p, os.stat, site="fs.stat")
+        return SimStat(self.w, self._meta(self.w, "stat", p, os.stat,
+                                          site="fs.stat"))
 
     def listdir(self, p="."):
         r = self._meta(self.w, "listdir", p, os.listdir)
@@ -793,6 +812,22 @@ class SubprocessProxy:
             def __exit__(self, *a):
                 return False
         return P()
+
+
+class ConsoleProxy:
+    """stands in for the builtin print() the interpreter uses for its
+    console; every call is an event and a fault site"""
+
+    def __init__(self, world):
+        self.w = world
+
+    def __call__(self, *args, sep=" ", end="\n", file=None, flush=False):
+        w = self.w
+        text = sep.join(str(a) for a in args) + end
+        f = w.hit("console.write", "console")
+        if f is not None:
+            raise make_error(f, "console")
+        w.log("console", text)
 
 
 class PkgutilProxy:
